@@ -17,9 +17,13 @@ PROPERTY = "C13"
 CLAIM = dict(
     text="Every OPM/OEM/OMM/TDM content that differs from a minimal message in at most 2 (quick) / 3 (thorough) of the listed "
     "dimensions (10 Earth frames + a Moon-centred frame, 6 time scales, 5 covariance variants, impulsive/continuous maneuvers in None/QSW/TNW frames with "
-    "and without comment or foreign time scale, 0-2 user-defined fields, 1-9 ephemeris points with 0/1/all covariances, "
-    "interpolation settings, one or two ephemerides, TLE orbits from text or built by hand, measurement type sets, 1-5 "
-    "observations, 2/3-leg and multiple paths) is written by the real writer in KVN and XML, read by the real reader and "
+    "and without comment (plain, with KVN/XML syntax characters), date_pos start/median/stop, foreign time scale, a "
+    "6-maneuver sequence mixing kinds, frames, comments and date_pos, user-defined fields (0-5; underscored names, names "
+    "sharing a last word, values with '=', '[', '<', '&'), 1-9 ephemeris points with 0/1/all covariances or a per-point "
+    "pattern of covariance frames, interpolation settings, one or two ephemerides (second one with its own scale, frame, "
+    "interpolation, covariances), TLE orbits from text or built by hand (angles at the 360 deg wrap, classification), "
+    "measurement type sets incl. single angle types, 1-5 observations, 2/3-leg paths with 2 or 3 participants, two "
+    "paths with equal or different types) is written by the real writer in KVN and XML, read by the real reader and "
     "compared field by field with an independent description of the original: loads(dumps(x)) ~ x, both encodings decode "
     "to the same object, what was read can be written again in both encodings (same text except CREATION_DATE) and the "
     "configured default format is honoured. Exhaustive inside the bound, so single-element lists, aliases written but not "
@@ -52,7 +56,8 @@ ASSUMPTIONS = [
 NOT_COVERED = (
     "centres other than the Earth and the Moon (need JPL kernels), frames beyond the 10 built-ins and the analytical Moon frame, more than 3 simultaneous deviations, "
     "OEM acceleration columns, hand-written messages (optional keywords, day-of-year dates, comments in odd places), "
-    "TLE classification / ephemeris type, RightAscension/Declination measurements (not defined by the library), purity of dumps() w.r.t. its argument"
+    "TLE ephemeris type, KeplerianImpulsiveMan (no delta-v before it is applied), PVT measurements, user-defined values "
+    "that look like '<number> [unit]', leading/trailing blanks in free text, RightAscension/Declination measurements (not defined by the library), purity of dumps() w.r.t. its argument"
 )
 
 FMTS = ("kvn", "xml")
@@ -61,6 +66,15 @@ REVDAY = 2 * 3.141592653589793 / 86400.0
 FRAMES = ["EME2000", "MOD", "TOD", "TEME", "PEF", "ITRF", "TIRF", "CIRF", "GCRF", "G50"]
 SCALES = ["UTC", "TAI", "TT", "GPS", "UT1", "TDB"]
 COVF = ["QSW", "TNW", "other", "other-set"]
+# OEM: covariance frame per point (None = no covariance on that point): consecutive blocks that differ in
+# their optional COV_REF_FRAME line, in both orders, and a block after a gap
+COVPAT = {
+    "tnw-state": ["TNW", "state"],
+    "qsw-tnw-state": ["QSW", "TNW", "state-diag"],
+    "state-qsw": ["state", "QSW"],
+    "other-state-tnw": ["other", "state", "TNW"],
+    "gap-qsw-state": [None, "QSW", "state"],
+}
 
 # dimension -> deviation values (the base value is implicit); "needs": the dimension only changes the object
 # when the named dimension deviates too
@@ -68,18 +82,19 @@ DIMS = {
     "opm": {
         "cls": ["orbit"],
         "form": ["keplerian"],
-        "state": ["hyperbolic"],
+        "state": ["hyperbolic", "axis"],
         "frame": FRAMES[1:] + ["Moon"],
         "scale": SCALES[1:],
         "cov": ["state"],
         "covframe": COVF,
-        "man": ["imp", "cont", "both"],
+        "man": ["imp", "cont", "both", "mix"],
         "manframe": ["QSW", "TNW"],
-        "mancomment": ["yes"],
+        "mancomment": ["yes", "special", "word"],
+        "manpos": ["median", "stop"],
         "manscale": ["other"],
-        "ud": [1, 2],
+        "ud": [1, 2, "keys", "values", "empty"],
         "kep": ["off"],
-        "name": ["absent", "bracket"],
+        "name": ["absent", "bracket", "empty"],
     },
     "oem": {
         "frame": FRAMES[1:] + ["Moon"],
@@ -87,25 +102,26 @@ DIMS = {
         "points": [1, 2, 9],
         "ncov": ["one", "all"],
         "covframe": COVF,
+        "covpat": list(COVPAT),
         "interp": ["linear", "lagrange2", "lagrange11"],
-        "count": ["two", "list1"],
+        "count": ["two", "list1", "two-mixed"],
         "name": ["absent"],
         "form": ["keplerian"],
     },
     "omm": {
         "source": ["manual"],
-        "tle": ["goes"],
+        "tle": ["goes", "wrap", "classified"],
         "scale": ["TAI"],
         "cov": ["state"],
         "covframe": COVF,
-        "ud": [1, 2],
+        "ud": [1, 2, "keys", "values", "empty"],
         "name": ["empty", "bracket"],
     },
     "tdm": {
-        "types": ["azel", "doppler", "razel", "all"],
+        "types": ["azel", "doppler", "razel", "all", "az", "el"],
         "obs": [1, 5],
-        "path": ["2leg"],
-        "paths": ["two-seq", "two-mixed"],
+        "path": ["2leg", "3leg-2sta"],
+        "paths": ["two-seq", "two-mixed", "two-types"],
         "scale": SCALES[1:],
     },
 }
@@ -114,11 +130,12 @@ NEEDS = {
     ("opm", "manframe"): "man",
     ("opm", "mancomment"): "man",
     ("opm", "manscale"): "man",
+    ("opm", "manpos"): "man",
     ("oem", "covframe"): "ncov",
     ("omm", "covframe"): "cov",
 }
 # dimensions whose VALUE is not part of a signature label (many values, one behaviour)
-COARSE = {"frame", "scale", "man", "types", "paths"}
+COARSE = {"frame", "scale", "man", "types", "paths", "covpat", "manpos"}
 
 
 def enumerate_specs(mtype, bound):
@@ -130,8 +147,22 @@ def enumerate_specs(mtype, bound):
             if any(NEEDS.get((mtype, d)) not in (None,) + combo for d in combo):
                 continue
             for vals in itertools.product(*(dims[d] for d in combo)):
-                out.append(dict(zip(combo, vals)))
+                dev = dict(zip(combo, vals))
+                if not same_object_as_smaller(mtype, dev):
+                    out.append(dev)
     return out
+
+
+def same_object_as_smaller(mtype, dev):
+    """Combinations that build the same object as a case with fewer deviations (not enumerated)."""
+    if mtype == "opm":
+        if dev.get("man") == "mix" and any(k in dev for k in ("manframe", "mancomment", "manpos")):
+            return True  # the mixed pattern fixes frame, comment and date_pos of each maneuver itself
+        if dev.get("man") == "imp" and "manpos" in dev:
+            return True  # an impulsive maneuver has no date_pos
+    if mtype == "oem" and "covpat" in dev and ("ncov" in dev or "covframe" in dev):
+        return True  # the per-point pattern replaces the uniform covariance dimensions
+    return False
 
 
 def spec_key(mtype, dev, cfgfmt):
@@ -154,7 +185,30 @@ COV0 = [
     [-3.041346050686871e-1, -4.989496988610662e-1, 3.540310904497689e-1, 1.869263192954590e-4, 1.008862586240695e-4, 6.224444338635500e-4],
 ]
 NAME_BRACKET = "GOES 9 [P]"  # the object name of the Blue Book example TLE
-UD = {1: {"FOO": "foo enters"}, 2: {"FOO": "foo enters", "BAR": "a bar"}}
+UD = {
+    "1": {"FOO": "foo enters"},
+    "2": {"FOO": "foo enters", "BAR": "a bar"},
+    # names with underscores, two names sharing their last word, one name being the tail of another
+    "keys": {"EARTH_MODEL": "EGM-96", "OD_RMS": "1.5", "SOLVE_RMS": "2.5", "RMS": "3.5", "A_B_C": "abc"},
+    # free text with the characters the KVN / XML syntaxes use
+    "values": {"NOTE": "a = b", "REF": "see [1] p.3", "CMP": "x<y & z>0", "QUOTE": "it's \"ok\""},
+    "empty": {},
+}
+AXIS = [7000123.4564, 0.0, -0.0004, 0.0, 7546.05345, 0.0]  # zeros and a value that rounds to -0.000000
+COMMENTS = {
+    "yes": "Maneuver 1",
+    "special": "burn 2: dv = 1.5 [m/s] <nominal> & more",
+    "word": "as in the COMMENT of burn 1",
+}
+# (kind, seconds after the epoch, frame, comment, date_pos, thrust given as acceleration)
+MIX = [
+    ("cont", 600.25, "TNW", "start-defined burn", "start", False),
+    ("imp", 1200.000001, "QSW", None, None, False),
+    ("cont", 2400.5, None, "centred on the apsis", "median", False),
+    ("imp", 3600.5, "TNW", "trim", None, False),
+    ("cont", 4800.75, "QSW", None, "stop", True),
+    ("imp", 5400.0, None, None, None, False),
+]
 TLE_ISS = """ISS (ZARYA)
 1 25544U 98067A   08264.51782528 -.00002182  00000-0 -11606-4 0  2927
 2 25544  51.6416 247.4627 0006703 130.5360 325.0288 15.72125391563537"""
@@ -186,6 +240,9 @@ def _attach_cov(sv, variant, factor=1.0):
     from beyond.frames.frames import get_frame
 
     values = np.array(COV0) * factor
+    if variant == "state-diag":
+        values = np.diag(np.diag(values))  # exact zeros off the diagonal
+        variant = "state"
     if variant == "state":
         sv.cov = Cov(sv, values, sv.frame)
     elif variant in ("QSW", "TNW"):
@@ -205,10 +262,42 @@ def _cov_variant(dev, key):
     return dev.get("covframe", "state")
 
 
-def build_opm(dev):
+def _maneuvers(dev, scale):
     from beyond.dates import timedelta
-    from beyond.orbits import StateVector, Orbit
     from beyond.orbits.man import ImpulsiveMan, ContinuousMan
+
+    kind = dev["man"]
+    if kind == "mix":
+        specs = MIX
+    else:
+        frame = dev.get("manframe")
+        c = COMMENTS.get(dev.get("mancomment"))
+        pos = dev.get("manpos", "start")
+        specs = []
+        if kind in ("imp", "both"):
+            specs.append(("imp", 100.000001, frame, c, None, False))
+        if kind in ("cont", "both"):
+            specs.append(("cont", 2000.5, frame, (c + " (2)" if kind == "both" else c) if c else None, pos, False))
+    dvs = [[1.2344, -0.5003, 0.0074], [-2.7184, 0.0004, 31.4159], [0.0, -3.0006, 0.0], [12.3456, 0.0, -0.0004]]
+    out = []
+    for k, (mk, dt, frame, comment, pos, accel) in enumerate(specs):
+        d = _date(scale, dt)
+        if dev.get("manscale"):
+            d = d.change_scale(_other_scale(scale))
+        dv = dvs[k % len(dvs)]
+        if mk == "imp":
+            out.append(ImpulsiveMan(d, dv, frame=frame, comment=comment))
+        else:
+            dur = timedelta(seconds=180.5004)
+            if accel:
+                out.append(ContinuousMan(d, dur, accel=[x / 180.5004 for x in dv], date_pos=pos, frame=frame, comment=comment))
+            else:
+                out.append(ContinuousMan(d, dur, dv=dv, date_pos=pos, frame=frame, comment=comment))
+    return out
+
+
+def build_opm(dev):
+    from beyond.orbits import StateVector, Orbit
 
     scale = dev.get("scale", "UTC")
     frame = dev.get("frame", "EME2000")
@@ -218,8 +307,9 @@ def build_opm(dev):
         if dev.get("state") == "hyperbolic":
             coords[0], coords[1] = -25000123.4564, 1.3
     else:
-        coords, form = list(HYP if dev.get("state") == "hyperbolic" else LEO), "cartesian"
-    kw = {} if dev.get("name") == "absent" else dict(name=NAME_BRACKET if dev.get("name") == "bracket" else "SAT 1", cospar_id="2010-001A")
+        coords, form = list({"hyperbolic": HYP, "axis": AXIS}.get(dev.get("state"), LEO)), "cartesian"
+    names = {"bracket": NAME_BRACKET, "empty": ""}
+    kw = {} if dev.get("name") == "absent" else dict(name=names.get(dev.get("name"), "SAT 1"), cospar_id="2010-001A")
     if dev.get("cls") == "orbit":
         sv = Orbit(coords, date, form, frame, "Kepler", **kw)
     else:
@@ -228,26 +318,9 @@ def build_opm(dev):
     if cv:
         _attach_cov(sv, cv)
     if "man" in dev:
-        mframe = dev.get("manframe")
-        comment = "Maneuver 1" if dev.get("mancomment") else None
-
-        def mdate(dt):
-            d = _date(scale, dt)
-            if dev.get("manscale"):
-                d = d.change_scale(_other_scale(scale))
-            return d
-
-        mans = []
-        if dev["man"] in ("imp", "both"):
-            mans.append(ImpulsiveMan(mdate(100.000001), [1.2344, -0.5003, 0.0074], frame=mframe, comment=comment))
-        if dev["man"] in ("cont", "both"):
-            mans.append(
-                ContinuousMan(mdate(2000.5), timedelta(seconds=180.5004), dv=[-2.7184, 0.0004, 31.4159], frame=mframe,
-                              comment="second burn" if comment else None)
-            )
-        sv.maneuvers = mans
+        sv.maneuvers = _maneuvers(dev, scale)
     if "ud" in dev:
-        sv._data["ccsds_user_defined"] = dict(UD[dev["ud"]])
+        sv._data["ccsds_user_defined"] = dict(UD[str(dev["ud"])])
     return sv
 
 
@@ -283,6 +356,10 @@ def build_oem(dev):
         which = [min(1, n - 1)] if dev["ncov"] == "one" else list(range(n))
         for k in which:
             _attach_cov(pts[k], variant, 1.0 + 0.125 * k)
+    if "covpat" in dev:
+        for k, variant in enumerate(COVPAT[dev["covpat"]][:n]):
+            if variant:
+                _attach_cov(pts[k], variant, 1.0 + 0.125 * k)
     interp = dev.get("interp")
     if interp == "linear":
         eph = Ephem(pts, method="linear")
@@ -299,6 +376,17 @@ def build_oem(dev):
             eph2.name = "SAT 2"
             eph2.cospar_id = "2011-002B"
         return [eph, eph2]
+    if dev.get("count") == "two-mixed":
+        # second segment with its own time scale, frame, interpolation and covariances
+        scale2 = "TAI" if scale != "TAI" else "UTC"
+        pts2 = _points(3, scale2, "TOD" if frame != "TOD" else "MOD", "cartesian", t_off=7200.5)
+        _attach_cov(pts2[0], "state", 2.0)
+        _attach_cov(pts2[1], "QSW", 3.0)
+        eph2 = Ephem(pts2, method="lagrange", order=5)
+        if dev.get("name") != "absent":
+            eph2.name = "SAT 2"
+            eph2.cospar_id = "2011-002B"
+        return [eph, eph2]
     if dev.get("count") == "list1":
         return [eph]
     return eph
@@ -309,6 +397,8 @@ def build_omm(dev):
     from beyond.orbits import Orbit
 
     text = TLE_GOES if dev.get("tle") == "goes" else TLE_ISS
+    if dev.get("tle") == "classified":
+        text = text.replace("25544U", "25544C")  # letters do not enter the checksum
     if dev.get("name") == "empty":
         text = text.split("\n", 1)[1]  # two-line form: no name
     elif dev.get("name") == "bracket":
@@ -326,14 +416,19 @@ def build_omm(dev):
             el, orb.date, "TLE", "TEME", "Sgp4",
             bstar=d["bstar"], ndot=d["ndot"], ndotdot=d["ndotdot"], norad_id=d["norad_id"], element_nb=d["element_nb"],
             revolutions=d["revolutions"], name=d["name"], cospar_id=d["cospar_id"],
+            classification_type=d["tle"].classification, ephemeris_type=d["tle"].type,
         )
+    if dev.get("tle") == "wrap":
+        # angles that round to 360.0000 / 0.0000 at the written resolution
+        orb[1] = 359.99996 * DEG
+        orb[4] = 0.00004 * DEG
     if dev.get("scale") == "TAI":
         orb.date = orb.date.change_scale("TAI")
     cv = _cov_variant(dev, "cov")
     if cv:
         _attach_cov(orb, cv)
     if "ud" in dev:
-        orb._data["ccsds_user_defined"] = dict(UD[dev["ud"]])
+        orb._data["ccsds_user_defined"] = dict(UD[str(dev["ud"])])
     return orb
 
 
@@ -341,7 +436,7 @@ AZ = [0.5, 3.0, 6.28313, -1.0, 2.0]  # theta; written as -deg % 360 with 0.01 de
 EL = [0.1, 0.7, -0.00003, 1.2, 0.3]
 RG = [1600123.4564, 1712345.6781, 1833333.3333, 1954321.0004, 2075000.4996]
 DP = [-3000.1234564, -1500.5, 0.0000004, 1500.25, 2999.9999996]
-TYPES = {"range": ["Range"], "azel": ["Azimut", "Elevation"], "doppler": ["Doppler"], "razel": ["Range", "Azimut", "Elevation"],
+TYPES = {"az": ["Azimut"], "el": ["Elevation"], "range": ["Range"], "azel": ["Azimut", "Elevation"], "doppler": ["Doppler"], "razel": ["Range", "Azimut", "Elevation"],
          "all": ["Range", "Azimut", "Elevation", "Doppler"]}
 
 
@@ -351,28 +446,31 @@ def build_tdm(dev):
     scale = dev.get("scale", "UTC")
     types = TYPES[dev.get("types", "range")]
     nobs = dev.get("obs", 2)
-    p1 = ["Toulouse", "1998-067A"] + ([] if dev.get("path") == "2leg" else ["Toulouse"])
-    p2 = ["Kourou", "1998-067A"] + ([] if dev.get("path") == "2leg" else ["Kourou"])
+    leg = dev.get("path")
+    p1 = ["Toulouse", "1998-067A"] + ([] if leg == "2leg" else ["Kourou"] if leg == "3leg-2sta" else ["Toulouse"])
+    p2 = ["Kourou", "1998-067A"] + ([] if leg == "2leg" else ["Kourou"])
     vals = {"Range": RG, "Azimut": AZ, "Elevation": EL, "Doppler": DP}
 
-    def one(path, k, shift):
+    def one(path, k, shift, tnames):
         out = []
-        for tname in types:
+        for tname in tnames:
             v = vals[tname][(k + shift) % 5]
             out.append(getattr(M, tname)(path, _date(scale, 5.000001 * k), v))
         return out
 
     items = []
     mode = dev.get("paths")
+    # "two-types": the second path carries other measurement types than the first one
+    types2 = types if mode != "two-types" else (["Azimut", "Elevation"] if "Range" in types else ["Range"])
     if mode == "two-mixed":
         for k in range(nobs):
-            items += one(p1, k, 0) + one(p2, k, 2)
+            items += one(p1, k, 0, types) + one(p2, k, 2, types)
     else:
         for k in range(nobs):
-            items += one(p1, k, 0)
-        if mode == "two-seq":
+            items += one(p1, k, 0, types)
+        if mode in ("two-seq", "two-types"):
             for k in range(nobs):
-                items += one(p2, k, 2)
+                items += one(p2, k, 2, types2)
     return M.MeasureSet(items)
 
 
@@ -419,8 +517,7 @@ CLAUSES = {
     "kvn-vs-xml": "KVN and XML encodings of the same object decode to the same object",
     "redump": "anything that was read can be written again",
     "redump-text": "re-writing what was read gives the same text except CREATION_DATE",
-        "cross": "reading in one encoding and re-writing in the other still restores the same object",
-    "default-format": "the default format is the configured one (KVN when unset) and gives the same text as the explicit argument",
+        "default-format": "the default format is the configured one (KVN when unset) and gives the same text as the explicit argument",
 }
 FIELD_CLAUSE = {
     "epoch": "epoch(s) to the microsecond in the same time scale",
@@ -429,7 +526,7 @@ FIELD_CLAUSE = {
     "id": "name and identifier",
     "position": "coordinates to the written precision (1 mm, 1 mm/s)",
     "velocity": "coordinates to the written precision (1 mm, 1 mm/s)",
-    "tle": "mean elements to the written precision",
+    "tle": "mean elements to the written precision and the identifiers of the element set",
     "cov": "covariance (values and frame, incl. RSW/TNW)",
     "maneuver": "maneuvers (epoch, duration, delta-v, frame, comment)",
     "interpolation": "interpolation settings",
@@ -437,6 +534,13 @@ FIELD_CLAUSE = {
     "measure": "measurement type / path / date / value",
     "points": "1..N ephemeris points",
 }
+
+
+def _base_field(field):
+    for suffix in (".instant", ".scale", ".center", ".type"):
+        if field.endswith(suffix):
+            return field[: -len(suffix)]
+    return field
 
 
 def _first_keyword(line):
@@ -466,7 +570,7 @@ def evaluate(mtype, dev, cfgfmt, rec):
         n = 0
         for d in diffs:
             key = f"{d.field}:{d.cls}"
-            if d.field in skip:  # already reported against the original: one finding per field
+            if _base_field(d.field) in skip:  # already reported against the original: one finding per field
                 continue
             n += 1
             found(stage, key, fmt, d.expected, d.observed, f"{d.field} {d.where}")
@@ -509,7 +613,7 @@ def evaluate(mtype, dev, cfgfmt, rec):
         desc[fmt] = d
         rec.state(sk + (fmt, "reloaded"))
         diffs = C.compare(exp, d, margin=margin)
-        reported[fmt] = set(x.field for x in diffs)
+        reported[fmt] = set(_base_field(x.field) for x in diffs)
         n = diffs_to("reload", fmt, diffs)
         rec.ev(sk + (fmt, "reload") if dev else None)
         rec.outcome(f"{mtype}/{fmt}/reload-" + ("ok" if not n else "differs"))
@@ -558,7 +662,11 @@ def evaluate(mtype, dev, cfgfmt, rec):
                     continue
                 already = reported["kvn"] | reported["xml"]
                 diffs = C.compare(exp, C.describe(z), margin=margin)
-                n = diffs_to("cross", f"{f}->{g}", diffs, skip=already)
+                # the object read from f is (field by field, as far as not reported) the original, so a field lost
+                # here is lost by the g round trip: same finding as on the direct g text (which an earlier
+                # failure may have masked in this case)
+                n = diffs_to("reload", g, [x for x in diffs if not any(
+                    y["stage"] == "reload" and y["fmt"] == g and y["key"] == f"{x.field}:{x.cls}" for y in F)], skip=already)
                 rec.ev(sk + (f, g, "cross") if dev else None)
                 rec.outcome(f"{mtype}/cross-{f}-{g}-" + ("ok" if not n else "differs"))
 
@@ -634,7 +742,7 @@ def check_case(case, t):
         sig = f"{mtype}/{stage}/{key}/[{label(cause)}]@{fmts}"
         field = key.split(":")[0].split(".")[0]
         clause = CLAUSES[stage]
-        if stage in ("reload", "kvn-vs-xml", "cross") and field in FIELD_CLAUSE:
+        if stage in ("reload", "kvn-vs-xml") and field in FIELD_CLAUSE:
             clause += ": " + FIELD_CLAUSE[field]
         # the recorded (replayable) case is the smallest one showing the failure; it has been executed as well
         small = dict(mtype=mtype, dev=cause, config=case.get("config"))
